@@ -1,4 +1,5 @@
 import CwPlus.Model.Cw20
+import CwPlus.Lemmas.Cw20Marketing
 /-!
 # cw20: the three maps never hold a key twice
 
@@ -32,7 +33,7 @@ theorem createAccounts_nodup (l : List (AddrArg × Nat)) (b : AMap Addr Nat) (t 
 /-- Every accepted instantiation establishes the invariant. -/
 theorem instantiate_nodup {m : InstMsg} {s : State} (h : instantiate m = .ok s) : NodupInv s := by
   simp [instantiate] at h
-  obtain ⟨_, _, b, t, hc, _, w, _, rfl⟩ := h
+  obtain ⟨_, _, b, t, hc, _, w, _, mk, lg, _, rfl⟩ := h
   exact ⟨createAccounts_nodup _ _ _ hc nodupKeys_nil, nodupKeys_nil, nodupKeys_nil⟩
 
 theorem debit_nodup {b b' : AMap Addr Nat} {a : Addr} {amt : Nat} (h : debit b a amt = .ok b')
@@ -113,6 +114,12 @@ theorem execute_nodup {s s' : State} {blk : Block} {snd : Addr} {msg : Msg} {out
     obtain ⟨_, _, s1, hd, b1, h1, b2, h2, rfl, _⟩ := h
     have h1' := deduct_nodup hd hi
     exact ⟨credit_nodup h2 (debit_nodup h1 h1'.balances), h1'.allow, h1'.allowSp⟩
+  case updateMarketing p d m =>
+    obtain ⟨mk, rfl, _⟩ := execUpdateMarketing_frame h
+    exact ⟨hi.balances, hi.allow, hi.allowSp⟩
+  case uploadLogo l =>
+    obtain ⟨mk, rfl, _⟩ := execUploadLogo_frame h
+    exact ⟨hi.balances, hi.allow, hi.allowSp⟩
 
 /-- One transaction (commit or roll back) preserves the invariant. -/
 theorem step_nodup {s : State} (blk : Block) (snd : Addr) (msg : Msg) (hi : NodupInv s) :
